@@ -1,6 +1,7 @@
 package vsched
 
 import (
+	"context"
 	"fmt"
 	"reflect"
 	"sort"
@@ -173,4 +174,17 @@ func Tracef(format string, a ...any) {
 	if ex := curExec; ex != nil && ex.tracing {
 		ex.log = append(ex.log, "    "+fmt.Sprintf(format, a...))
 	}
+}
+
+// CtxErr replaces ctx.Err(): an error already set is stable (no scheduling point); a nil answer
+// depends on a concurrent cancel, so the read is a scheduling point.
+func CtxErr(ctx context.Context) error {
+	if passthrough {
+		return ctx.Err()
+	}
+	if err := ctx.Err(); err != nil {
+		return err
+	}
+	Yield("ctx.Err")
+	return ctx.Err()
 }
